@@ -55,6 +55,17 @@ func c10Messages() []c10Msg {
 			p["newName"] = "zz"
 			return raw(s, "textDocument/rename", p)
 		}},
+		// the same requests at a place that holds no identifier (the literal 1): the early-return paths of the handlers
+		{"rename-on-literal", false, func(s *drv.Server) string {
+			p := pos(s, "a.lua", 0, 11)
+			p["newName"] = "zz"
+			return raw(s, "textDocument/rename", p)
+		}},
+		{"references-on-literal", false, func(s *drv.Server) string {
+			p := pos(s, "a.lua", 0, 11)
+			p["context"] = map[string]interface{}{"includeDeclaration": true}
+			return raw(s, "textDocument/references", p)
+		}},
 		{"documentSymbol", false, func(s *drv.Server) string {
 			return raw(s, "textDocument/documentSymbol", map[string]interface{}{"textDocument": map[string]interface{}{"uri": s.URI("a.lua")}})
 		}},
@@ -439,7 +450,7 @@ func init() {
 	core.Register(&core.Check{
 		ID:        "C10",
 		Technique: "stateless schedule exploration of the real handlers under the controlled runtime: every word of 2 (thorough: 3) in-flight messages is dispatched exactly as the jrpc2 dispatcher model allows and every interleaving with <=2 (thorough: <=3) deviations at lock, channel and shared-object method-entry points is executed; oracles: lockset/overlap check on shared objects, no panic/deadlock, every answer produced by some sequential order",
-		Rule: "messages: 8 requests (hover, definition, references, rename, documentSymbol, workspace/symbol, completion, hover in another file) and 7 notifications (didChange, didSave, didClose, didOpen, watched created/deleted, didChangeConfiguration) on a two-file workspace with a.lua open; words: request||notification in both arrival orders, request||request, and (thorough) request,notification,request triples; " +
+		Rule: "messages: requests (hover, definition, references, rename, rename and references on a literal, documentSymbol, workspace/symbol, completion, hover in another file) and 7 notifications (didChange, didSave, didClose, didOpen, watched created/deleted, didChangeConfiguration) on a two-file workspace with a.lua open; words: request||notification in both arrival orders, request||request, and (thorough) request,notification,request triples; " +
 			"each handler runs as a managed thread that starts when all earlier notifications have finished (dispatcher model, see the TLA+ model under /verif/tla); states = completed interleavings; transitions = scheduling decisions of the concurrent phase; non-trivial = words with more than one answer vector",
 		Assumptions: []string{
 			"interleaving granularity: lock/unlock, channel and WaitGroup operations and the entries of methods of the shared objects (LspServer, AllProject, FileMapCache, GlobalConfig, DirManager, ...); code between two such points runs atomically",
